@@ -173,18 +173,98 @@ class _Assigns:
         return r
 
 
+class _Dangling:
+    """(b): which functions can return with a deleted, not re-assigned field of `this`"""
+
+    def __init__(self, fx, assigns, fns):
+        self.fx = fx
+        self.assigns = assigns
+        self.memo = {}
+        self.callers = {}
+        for h in fns:
+            for c in h.calls():
+                if c.get("calleeKey"):
+                    self.callers.setdefault(c["calleeKey"], []).append((h, c))
+
+    @staticmethod
+    def private(fn):
+        return fn.rec.get("access") == 2 and not fn.rec.get("virtual")
+
+    def delete_sites(self, fn, field, depth):
+        out = []
+        for n in fn.walk():
+            k = n.get("k")
+            if k == "CXXDeleteExpr" and n.get("c") and _this_field(n["c"][0]) == field:
+                out.append(n)
+            elif k == "CXXMemberCallExpr" and depth > 0:
+                obj = F.call_object(n)
+                if obj is not None and obj.get("k") == "CXXThisExpr":
+                    g = self.fx.functions.get(n.get("calleeKey"))
+                    if g is not None and g.body is not None and self.private(g) and not _is_dtor(g) \
+                            and self.leaves(g, field, depth - 1):
+                        out.append(n)
+        return out
+
+    def leaves(self, fn, field, depth=3):
+        """sites of fn (deletes, or calls of private helpers that leave the field deleted) after
+        which some path reaches the end of fn without an assignment to the field"""
+        key = (fn.key, field, depth)
+        if key in self.memo:
+            return self.memo[key]
+        self.memo[key] = []
+        cfg = fn.cfg
+        dead = _dead_switch_edges(self.fx, fn)
+        spos = [cfg.block_of(s) for s in self.assigns.sites(fn, field)]
+        spos = [p for p in spos if p]
+        out = []
+        for d in self.delete_sites(fn, field, depth):
+            p = cfg.block_of(d)
+            if p is None:
+                raise AnalysisBroken("delete expression not in the CFG of %s" % fn.key)
+            if any(q[0] == p[0] and q[1] > p[1] for q in spos):
+                continue
+            avoid = {q[0] for q in spos} - {p[0]}
+            starts = [s for s in cfg.succ.get(p[0], []) if (p[0], s) not in dead]
+            if _escapes(cfg, starts, avoid, dead):
+                out.append(d)
+        self.memo[key] = out
+        return out
+
+    def verdict(self, fn, field, depth=3):
+        """[] if no caller can observe the dangling field, else what goes wrong"""
+        left = self.leaves(fn, field)
+        if not left:
+            return []
+        if not self.private(fn) or depth == 0:
+            return ["%s: %s deleted, not assigned again before the function returns" % (fn.where(left[0]), field[1])]
+        probs = []
+        for h, call in self.callers.get(fn.key, []):
+            obj = F.call_object(call)
+            if obj is None or obj.get("k") != "CXXThisExpr":
+                probs.append("%s: private %s (leaves %s deleted) is called on another object"
+                             % (h.where(call), fn.short, field[1]))
+                continue
+            if _is_dtor(h):
+                continue
+            if any(x["id"] == call["id"] for x in self.leaves(h, field)):
+                sub = self.verdict(h, field, depth - 1) if self.private(h) else \
+                    ["%s: %s() leaves %s deleted and %s does not assign it afterwards"
+                     % (h.where(call), fn.name, field[1], h.short)]
+                probs.extend(sub)
+        return probs
+
+
 def rule_newdelete(ctx):
     fx = ctx.facts
     tab = engine.load_table("pair.json")["newdelete"]
     allocs, rels = {}, {}
-    dangling = {}
+    fns = [f for f in sorted(fx.functions.values(), key=lambda f: (f.file, f.line, f.key)) if _in_scope(f, tab)]
     assigns = _Assigns(fx, tab["callee_depth"])
-    n_outside = 0
-    for fn in sorted(fx.functions.values(), key=lambda f: (f.file, f.line, f.key)):
-        if not _in_scope(fn, tab):
-            continue
+    dang = _Dangling(fx, assigns, fns)
+    dangling = {}
+    for fn in fns:
         ctx.saw(fn)
-        deletes = {}
+        deleted = set()
         for n in fn.walk():
             k = n.get("k")
             if k == "BinaryOperator" and n.get("op") == "=":
@@ -198,42 +278,26 @@ def rule_newdelete(ctx):
                     rels.setdefault((f[0], f[1]), {})[(fn.sig, bool(n.get("array")))] = fn.where(n)
                     tf = _this_field(n["c"][0])
                     if tf and not _is_dtor(fn):
-                        deletes.setdefault(tf, []).append(n)
+                        deleted.add(tf)
         for init in fn.rec.get("inits", []) or []:
             v = _value(init.get("init"))
             if init.get("field") and v is not None and v.get("k") == "CXXNewExpr" and fn.cls:
                 allocs.setdefault((strip_targs(fn.cls), init["field"]), {})[(fn.sig, bool(v.get("array")))] = fn.where(v)
-        # (b) delete outside a destructor is followed by an assignment on every path
-        for field, dels in deletes.items():
-            cfg = fn.cfg
-            dead = _dead_switch_edges(fx, fn)
-            sites = assigns.sites(fn, field)
-            spos = [cfg.block_of(s) for s in sites]
-            spos = [p for p in spos if p]
-            bad_at = []
-            for d in dels:
-                p = cfg.block_of(d)
-                if p is None:
-                    raise AnalysisBroken("delete expression not in the CFG of %s" % fn.key)
-                if any(q[0] == p[0] and q[1] > p[1] for q in spos):
-                    continue
-                avoid = {q[0] for q in spos} - {p[0]}
-                starts = [s for s in cfg.succ.get(p[0], []) if (p[0], s) not in dead]
-                if _escapes(cfg, starts, avoid, dead):
-                    bad_at.append(fn.where(d))
+        # (b) a delete outside a destructor is followed by an assignment on every path
+        for field in sorted(deleted):
+            probs = dang.verdict(fn, field)
             key = "%s:delete-then-assign:%s" % (fn.sig, field[1])
-            n_outside += 1
             prev = dangling.get(key)
-            if prev is None or (prev[0] and bad_at):
-                dangling[key] = (not bad_at, fn, field, bad_at)
+            if prev is None or (prev[0] and probs):
+                dangling[key] = (not probs, fn, field, probs)
     n_pairs = 0
+    form = lambda arr, new: ("new T[n]" if arr else "new T") if new else ("delete[]" if arr else "delete")
     for field in sorted(set(allocs) & set(rels)):
         a, r = allocs[field], rels[field]
         akinds = {k[1] for k in a}
         rkinds = {k[1] for k in r}
         ok = len(akinds) == 1 and rkinds == akinds
         n_pairs += 1
-        form = lambda arr, new: ("new T[n]" if arr else "new T") if new else ("delete[]" if arr else "delete")
         detail = {"allocated": sorted("%s in %s (%s)" % (form(k[1], True), k[0], w) for k, w in a.items()),
                   "released": sorted("%s in %s (%s)" % (form(k[1], False), k[0], w) for k, w in r.items())}
         msg = ""
@@ -245,12 +309,13 @@ def rule_newdelete(ctx):
                    % (F.short(field[0]), field[1], " and ".join(sorted(form(x, True) for x in akinds)),
                       " and ".join(sorted(form(x, False) for x in rkinds))))
         ctx.report(RULE, "%s::%s:new-delete-form" % (F.short(field[0]), field[1]), ok, where, "", msg, detail)
-    for key, (ok, fn, field, bad_at) in sorted(dangling.items()):
+    for key, (ok, fn, field, probs) in sorted(dangling.items()):
         msg = ""
         if not ok:
-            msg = ("%s is deleted and on some path to the end of the function not assigned again: the object keeps a "
-                   "dangling pointer that the next delete (destructor or another call) frees a second time" % field[1])
-        ctx.report(RULE, key, ok, bad_at[0] if bad_at else fn.where(), fn.short, msg, {"delete_sites": bad_at})
+            msg = ("%s is deleted and on some path not assigned again before control returns to a caller outside "
+                   "the class: the object keeps a dangling pointer that the next delete (destructor or another "
+                   "call) frees a second time [%s]" % (field[1], "; ".join(probs)))
+        ctx.report(RULE, key, ok, probs[0].split(": ")[0] if probs else fn.where(), fn.short, msg, {"problems": probs})
     ctx.floor(RULE, tab["floor_fields_paired"], n_pairs, "fields with both new and delete")
     ctx.floor(RULE, tab["floor_delete_outside_destructor"], len(dangling),
               "functions deleting a field of this outside a destructor")
